@@ -2,6 +2,6 @@ SPECIFICATION Spec
 CONSTANTS
   Codecs = {"c1", "c2"}
   MaxBlobs = 2
-INVARIANT TypeInv ExactlyOneAnswer SilentOtherwise WrongNeverAccepted BlobsDense MatchingIffSameModel
-PROPERTY BlobsImmutable TrainOnlyTouchesOneCodec BatchIsSequence
+INVARIANT TypeInv ExactlyOneAnswer SilentOtherwise WrongNeverAccepted BlobsDense MatchingIffSameModel BatchIsSequence
+PROPERTY BlobsImmutable TrainOnlyTouchesOneCodec
 CHECK_DEADLOCK FALSE
